@@ -182,6 +182,24 @@ func FindTyped(v reflect.Value, t reflect.Type) (reflect.Value, bool) {
 // ListWalk follows the pointer field `next` from head and counts the nodes and
 // those whose integer field `cnt` is not zero.
 func ListWalk(head reflect.Value, next, cnt string) (nodes, pinned int, ok bool) {
+	// nodes that the head still points BACK to are reachable as well (a removed node that the
+	// new head keeps as its predecessor, and whatever hangs behind it)
+	if h := Deref(head); h.IsValid() && h.Kind() == reflect.Struct {
+		if pv := h.FieldByName("prev"); pv.IsValid() {
+			seen := 0
+			for q := pv; seen < 1<<16; seen++ {
+				d := Deref(q)
+				if !d.IsValid() || d.Kind() != reflect.Struct {
+					break
+				}
+				nodes++
+				q = d.FieldByName("prev")
+				if !q.IsValid() {
+					break
+				}
+			}
+		}
+	}
 	p := head
 	for {
 		d := Deref(p)
